@@ -12,6 +12,6 @@ PROP = dict(
         level_text="Property-based: rapid-generated programs, inputs and configurations; every case is executed in ~10 configurations (limits, permutation, sorted+declared, partials) and checked against a harness-side naive group-by/nested-loop join where semantics are unambiguous and against its own baseline run otherwise.",
         level_note="Trusted: the runtime's expression evaluator for per-row key/argument values, the harness's naive group-by and nested-loop join, the ZSON parser used to build rows. Not covered: every() time bins, collect_map, joins with missing keys (outside the claim), the vector runtime.",
         technique="property-based testing (rapid) with a two-layer oracle: reference model + metamorphic relations",
-        tests=[dict(name="TestGroupBy", quick=(8, 250), thorough=(16, 1500)),
+        tests=[dict(name="TestGroupBy", quick=(8, 250), thorough=(16, 1000), timeout=dict(quick=1500, thorough=6000)),
                dict(name="TestJoin", quick=(8, 400), thorough=(16, 3000))],
 )
